@@ -110,7 +110,7 @@ def run(ctx):
     res = ctx.drive(PKG, "TestC18Trace", env={"VERIF_TRACE_OUT": trace}, label="C18/trace", timeout=900)
     if res is None or not os.path.exists(trace) or os.path.getsize(trace) == 0:
         raise vlib.Inconclusive("no trace recorded")
-    acc, n = validate(ctx, trace, "C18/trace", 8 if thorough else 5, {})
+    acc, n = validate(ctx, trace, "C18/trace", 10 if thorough else 5, {})
     ctx.validated += acc
     vlib.log("trace: %d of %d recorded calls accepted by TraceTimeViews" % (acc, n))
 
